@@ -49,17 +49,30 @@ DirFailures(ev) ==
                                          /\ (IF ev.covered THEN ev.marks.signed = Len(x.exs) ELSE ev.marks.signed = 0 /\ ev.marks.notsigned = Len(x.exs)))
               THEN {"bundle signed with a signatures section does not verify in dump-bundle"} ELSE {}))
 
+\* ev.strategy = "stable": the tool signs with the key in the file (ev.pk).  ev.strategy = "rotating" (hook of /repo 0264ba8): the
+\* strategy answers ev.pk to its first GetPublicKey request and ev.pk2 to every later one, and signs with the key of its last
+\* answer.  C07 does not say which key the tool ends up recording; it says that the signature it lists verifies under the key
+\* stored in its own attributes, that the reported ID is the ID of that key, and that the signer refuses (adds nothing)
+\* when the signature it obtained does not verify under the key it is about to record.  So: the recorded key rk is read from
+\* the output's own attributes, it must be one of the keys the strategy answered, and everything else is stated over rk;
+\* with a rotating strategy a refusal (non-zero exit) is a legal outcome too, and then the ID of a signed bundle must not be announced.
 IbFailures(ev) ==
-  LET attrs == << [k |-> K_ed25519, v |-> ev.pk] >>
-      prefix == EncArrayHdr(3) \o EncBytes(IBMagic) \o EncBytes(IBVer) \o EncArrayHdr(1) \o EncArrayHdr(2) \o AttrsBytes(attrs) \o <<88, 64>>
+  LET rot == ev.strategy = "rotating"
+      pre0 == EncArrayHdr(3) \o EncBytes(IBMagic) \o EncBytes(IBVer) \o EncArrayHdr(1) \o EncArrayHdr(2)
+      a0 == AttrsBytes(<< [k |-> K_ed25519, v |-> ev.pk] >>)
+      kpos == Len(pre0) + Len(a0) - 31                     \* the 32 key bytes are the tail of the one-entry attributes map
+      rk == IF rot /\ Len(ev.out) >= kpos + 31 THEN SubSeq(ev.out, kpos, kpos + 31) ELSE ev.pk
+      attrs == << [k |-> K_ed25519, v |-> rk] >>
+      prefix == pre0 \o AttrsBytes(attrs) \o <<88, 64>>
       n == Len(prefix)
-  IN (IF ev.sign_exit = 0 THEN {} ELSE {"sign-bundle integrity-block failed on gen-bundle's output"})
-  \cup (IF ev.sign_exit # 0 THEN {}
-        ELSE (IF Len(ev.out) = n + 64 + Len(ev.infile) /\ SubSeq(ev.out, 1, n) = prefix /\ SubSeq(ev.out, n + 65, Len(ev.out)) = ev.infile THEN {}
+  IN (IF ev.sign_exit = 0 \/ rot THEN {} ELSE {"sign-bundle integrity-block failed on gen-bundle's output"})
+  \cup (IF ev.sign_exit # 0 THEN (IF rot /\ ev.id # <<>> THEN {"a Web Bundle ID was announced although signing was refused"} ELSE {})
+        ELSE (IF rk \in {ev.pk} \cup (IF rot THEN {ev.pk2} ELSE {}) THEN {} ELSE {"the recorded public key is not a key the signing strategy answered"})
+        \cup (IF Len(ev.out) = n + 64 + Len(ev.infile) /\ SubSeq(ev.out, 1, n) = prefix /\ SubSeq(ev.out, n + 65, Len(ev.out)) = ev.infile THEN {}
               ELSE {"output is not [magic, version, [[attributes, signature]]] followed by the untouched bundle"})
-        \cup (IF Len(ev.out) >= n + 64 /\ Ed25519Verify(ev.pk, DataToBeSigned(SHA512(ev.infile), BlockBytes(<<>>), attrs), SubSeq(ev.out, n + 1, n + 64)) THEN {}
-              ELSE {"integrity-block signature does not verify"})
-        \cup (IF ev.id = WebBundleId(ev.pk) THEN {} ELSE {"printed Web Bundle ID"}))
+        \cup (IF Len(ev.out) >= n + 64 /\ Ed25519Verify(rk, DataToBeSigned(SHA512(ev.infile), BlockBytes(<<>>), attrs), SubSeq(ev.out, n + 1, n + 64)) THEN {}
+              ELSE {"integrity-block signature does not verify under the public key stored in its own attributes"})
+        \cup (IF ev.id = WebBundleId(rk) THEN {} ELSE {"printed Web Bundle ID is not the ID of the recorded key"}))
   \cup (IF ev.dumpid_exit = 0 /\ ev.dumpid = WebBundleId(ev.pk) THEN {} ELSE {"dump-id"})
 
 CertFailures(ev) ==
